@@ -126,7 +126,8 @@ func LayerConvertFuncWithCompressionLevel(compressionLevel zstd.EncoderLevel, op
 		defer uncompressedReaderAt.Close()
 		uncompressedSR := io.NewSectionReader(uncompressedReaderAt, 0, uncompressedDesc.Size)
 		metadata := make(map[string]string)
-		opts = append(opts, estargz.WithCompression(&zstdCompression{
+		// NOTE: don't modify "opts": it's shared by all (possibly concurrent) calls of this function.
+		opts := append(append([]estargz.Option{}, opts...), estargz.WithCompression(&zstdCompression{
 			new(zstdchunked.Decompressor),
 			&zstdchunked.Compressor{
 				CompressionLevel: compressionLevel,
